@@ -505,6 +505,25 @@ Definition hist_model (c : World.world * list op) : list value :=
                                  {'op': 'force_chain', 'chain': 0, 'picks': [0], 'recompute': False, 'delete': True},
                                  {'op': 'flags', 'chain': 0}, {'op': 'has_data', 'chain': 0, 'pick': 2},
                                  {'op': 'value', 'chain': 0, 'pick': 2}]))
+        # reset_data between forcing and the next request: the value held in memory goes, the mark stays
+        out.append(dict(classes=dia, files={}, base=base, context=None,
+                        ops=[{'op': 'build', 'base': base}, {'op': 'value', 'chain': 0, 'pick': 2},
+                             {'op': 'force_task', 'chain': 0, 'pick': 1, 'delete': False}, {'op': 'reset', 'chain': 0, 'pick': 1},
+                             {'op': 'flags', 'chain': 0}, {'op': 'value', 'chain': 0, 'pick': 1},
+                             {'op': 'force_chain', 'chain': 0, 'picks': [0], 'recompute': False, 'delete': False},
+                             {'op': 'reset', 'chain': 0, 'pick': 0}, {'op': 'reset', 'chain': 0, 'pick': 2}, {'op': 'flags', 'chain': 0},
+                             {'op': 'value', 'chain': 0, 'pick': 2}, {'op': 'value', 'chain': 0, 'pick': 3},
+                             {'op': 'reset', 'chain': 0, 'pick': 3}, {'op': 'value', 'chain': 0, 'pick': 3}]))
+        # two mountings of one pipeline feed a task that is not symmetric in them; then the roles are swapped
+        roles = [dict(K(0, 'Score', params=[P('x')]), name='score'),
+                 dict(K(1, 'Compare', meta_inputs=[{'name': 'baseline::score'}, {'name': 'candidate::score'}]), name='compare')]
+        rfiles = {'a.json': {'tasks': ['@M.Score'], 'x': 1}, 'b.json': {'tasks': ['@M.Score'], 'x': 2}}
+        r1 = {'name': 'one', 'data': {'tasks': ['@M.Compare'], 'uses': ['a.json as baseline', 'b.json as candidate']}}
+        r2 = {'name': 'two', 'data': {'tasks': ['@M.Compare'], 'uses': ['b.json as baseline', 'a.json as candidate']}}
+        out.append(dict(classes=roles, files=rfiles, base=r1, context=None,
+                        ops=[{'op': 'build', 'base': r1}] + [{'op': 'value', 'chain': 0, 'pick': k} for k in range(3)] +
+                            [{'op': 'build', 'base': r2}] + [{'op': 'value', 'chain': 1, 'pick': k} for k in range(3)] +
+                            [{'op': 'restart'}, {'op': 'build', 'base': r2}] + [{'op': 'value', 'chain': 0, 'pick': k} for k in range(3)]))
         return out
 
     def gen(self, rng, tier):
